@@ -73,6 +73,25 @@ theorem listing_hides_temporaries (d : Dir) (s : Bytes) (l : List Name) (n : Nam
   subst h
   simpa using (List.mem_filter.1 hn).2
 
+/-- Keys whose file would be the storage directory itself or its parent ("", ".", "..", and their spellings with ':',
+    which is stripped) are no keys: `Set`, `Get` and `Delete` refuse them and leave the directory as it is (F52 repair —
+    before it `Get` "found" an empty value for them and `Delete` removed the directory of an empty store). -/
+theorem directory_names_refused (d : Dir) (k : Key) (v : Bytes) (h : isDirName (fileName k) = true) :
+    set d k v = (d, .err) ∧ get d k = .err ∧ delete d k = (d, .err) := by
+  have hnt : isTempName (fileName k) = false := by
+    simp only [isDirName, Bool.or_eq_true, beq_iff_eq] at h
+    rcases h with (h | h) | h <;> rw [h] <;> decide
+  have hns : (fileName k).contains 47 = false := by
+    simp only [isDirName, Bool.or_eq_true, beq_iff_eq] at h
+    rcases h with (h | h) | h <;> rw [h] <;> decide
+  have hnok : fileNameOk (fileName k) = false := by simp [fileNameOk, h]
+  refine ⟨?_, ?_, ?_⟩
+  · simp only [Storage.set, hnt, hns, hnok]; simp
+  · simp only [Storage.get, hnt, hns, h]; simp
+  · simp only [Storage.delete, hnt, hns, h]; simp
+
+example : isDirName (fileName [58]) = true ∧ isDirName (fileName [46, 58, 46]) = true := by decide
+
 /-- For EVERY name (arbitrary bytes): the entity key `hex name ++ ".entity"` is a `KeyOk` key when the
     name has at most 122 bytes (file name + ".tmp" within NAME_MAX), and `toEntityKey` is injective
     on all names, so distinct names never share a file. -/
